@@ -1,9 +1,11 @@
 #!/bin/sh
-# usage: eval_patch_tree.sh <patch> [Cxx ...] — like eval_seed.sh but on a scratch copy of /repo under mktemp (for use while
-# /repo must stay untouched, e.g. during a thorough run).  Prints the alarms of tools/eval_tree.py.
+# usage: eval_patch_tree.sh <patch> [Cxx ...] — like eval_seed.sh but on a scratch copy of /repo's HEAD commit under mktemp (for use
+# while /repo must stay untouched, or while another tool has a seed applied to /repo's working tree: the copy is taken from the
+# commit, not from the working tree).  Prints the alarms of tools/eval_tree.py.  Experiments only: registered checks read /repo itself.
 P="$1"; shift
 D=$(mktemp -d /tmp/nlpt_XXXXXX)
-for n in src Cargo.toml Cargo.lock benches tests; do [ -e /repo/$n ] && cp -r /repo/$n $D/; done
-if ! (cd $D && patch -p1 -s --fuzz=3 -i "$P" >/dev/null 2>&1); then echo "PATCH DOES NOT APPLY: $P"; rm -rf $D; exit 2; fi
+git -C /repo archive HEAD | tar x -C $D
+cp /repo/Cargo.lock $D/ 2>/dev/null
+if ! (cd $D && git apply "$P" >/dev/null 2>&1 || patch -p1 -s --fuzz=3 -i "$P" >/dev/null 2>&1); then echo "PATCH DOES NOT APPLY: $P"; rm -rf $D; exit 2; fi
 python3 /verif/tools/eval_tree.py $D "$@" | grep -v " 0 alarms$"
 rm -rf $D
